@@ -9,6 +9,7 @@
 (* the last; if the instance has no token of E, E is absent from this expansion: nil (coded -1) and -1.    *)
 EXTENDS Integers, Sequences, FiniteSets
 
+AtLeast(x) == -1000 - x        \* "x or more" (see Matches)
 Min(S) == CHOOSE x \in S : \A y \in S : x <= y
 Max(S) == CHOOSE x \in S : \A y \in S : y <= x
 ToSet(s) == { s[i] : i \in 1..Len(s) }
@@ -26,12 +27,18 @@ Expected(ref, tokens, stack, marker) ==
       end == IF mine = {} THEN -1 ELSE Max({ tokens[i][3] : i \in mine })
       first == IF mine = {} THEN 0 ELSE CHOOSE i \in mine : tokens[i][2] = off
       val == IF mine = {} THEN -1 ELSE IF tokens[first][1] \in ToSet(ref.hterms) THEN 1000 + off ELSE off
-  IN CASE ref.form = "first" -> <<from>>
+      Any == -99          \* a nullable list without tokens is present and empty: where it sits is not checked
+  IN CASE ref.star /\ mine = {} -> IF ref.val = "none" THEN <<Any, Any>> ELSE <<Any, Any, Any>>
+       [] ref.form = "first" -> <<from>>
        [] ref.form = "last" -> <<to>>
        [] ref.form = "left" -> <<from, to>>
-       [] ref.val = "none" -> <<off, end>>
-       [] OTHER -> <<val, off, end>>
+       \* an element that contains a nullable list may end with it: then it ends where the empty list sits (at the next token)
+       [] ref.val = "none" -> <<off, IF ref.star THEN AtLeast(end) ELSE end>>
+       [] OTHER -> <<val, off, IF ref.star THEN AtLeast(end) ELSE end>>
 RECURSIVE ExpectedAll(_, _, _, _, _)
 ExpectedAll(refs, k, tokens, stack, marker) ==
   IF k > Len(refs) THEN <<>> ELSE Expected(refs[k], tokens, stack, marker) \o ExpectedAll(refs, k + 1, tokens, stack, marker)
+Matches(obs, exp) == Len(obs) = Len(exp) /\ \A i \in 1..Len(exp) :
+   \/ exp[i] = -99 \/ obs[i] = exp[i]
+   \/ (exp[i] <= -1000 /\ obs[i] >= -(exp[i] + 1000))
 =============================================================================
